@@ -166,6 +166,7 @@ Record loaded : Set := mkLoaded {
 }.
 
 Definition window_size : Z := Z.of_N Page_HEADER_WINDOW.
+Definition window_max : Z := Z.of_N Page_HEADER_WINDOW_MAX.
 Definition min_header_read : Z := Z.of_N Page_MIN_HEADER_READ.
 
 (** The page type a load accepts: [None] = accepted, [Some c] = rejected with status c. *)
@@ -186,6 +187,23 @@ Section Load.
   Definition slice (f : list N) (off len : Z) : list N :=
     firstn (Z.to_nat len) (skipn (Z.to_nat off) f).
 
+  (** parse_page_header_widening / reread_page_header_fread (/repo ae99d8d): the header is parsed from a window
+      of [w] bytes; while the parse fails, more bytes are available and the window is below the maximum,
+      the window is multiplied by 8 (clamped to the bytes available and to the maximum) and the parse repeated.
+      Seven rounds take 256 bytes to 16 MiB; the verdict is that of the last parse. *)
+  Fixpoint widen (fuel : nat) (f : list N) (off avail w : Z) : hdr_result :=
+    let r := parse_hdr (slice f off w) in
+    match fuel with
+    | O => r
+    | S fuel' =>
+      match r with
+      | HdrOk _ _ => r
+      | _ => if (w <? avail) && (w <? window_max)
+             then widen fuel' f off avail (Z.min avail (Z.min (w * 8) window_max))
+             else r
+      end
+    end.
+
   (** mmap / buffer: the header is parsed in place, the body is used in place *)
   Definition load_mapped (k : page_kind) (f : list N) (off : Z) : res loaded :=
     let n := Z.of_nat (length f) in
@@ -194,7 +212,7 @@ Section Load.
     let avail := n - off in
     let window := if pk_window ck k then Z.min avail window_size else window_size in
     let given := Z.min window avail in
-    match parse_hdr (slice f off given) with
+    match (if pk_window ck k then widen 8 f off avail given else parse_hdr (slice f off given)) with
     | HdrShort => if window >? avail then Fault OobRead      (* the parser reads on, beyond the mapping *)
                   else Err E_CARQUET_ERROR_THRIFT_TRUNCATED
     | HdrErr c => Err c
@@ -216,7 +234,7 @@ Section Load.
     if off <? 0 then Err E_CARQUET_ERROR_FILE_SEEK else
     let header_read := Z.max 0 (Z.min window_size (n - off)) in
     if header_read <? min_header_read then Err E_CARQUET_ERROR_FILE_READ else
-    match parse_hdr (slice f off header_read) with
+    match widen 8 f off (n - off) header_read with
     | HdrShort => Err E_CARQUET_ERROR_THRIFT_TRUNCATED
     | HdrErr c => Err c
     | HdrOk h hs =>
